@@ -160,7 +160,8 @@ let handle kind c =
     let name = if status = "ok" then next_bytes c else [] in
     let frames = next_list c next_frame in
     let symb _ = frames in
-    if status = "unexpected" then prop "total" ("Child counted several names or none and did not exit cleanly on " ^ short text)
+    if status = "hang" then prop "total" ("the Child process did not terminate within the watchdog limit on " ^ short text)
+    else if status = "unexpected" then prop "total" ("Child counted several names or none and did not exit cleanly on " ^ short text)
     else begin
       (match monitor_child symb child text, status with
        | NoCrash, "nocrash" | Malformed, "err" -> ()
@@ -185,6 +186,12 @@ let handle kind c =
             | None -> Hashtbl.replace by_view k (name, text)))
       end
     end
+  | "hang" ->
+    let what = next c in
+    let _child = next_n c in
+    let text = next_bytes c in
+    prop "total" (Printf.sprintf "%s did not terminate within the watchdog limit on the report (%d bytes) %S"
+                    what (List.length text) (short text))
   | "uint" ->
     let s = next_bytes c in
     let st = next c in
